@@ -629,6 +629,93 @@ func c17Scenarios(tier string) []*world.Scenario {
 		sc2.Check = sc.Check
 		out = append(out, sc2)
 	}
+	// every reply SHAPE around the limit (bulk, error line, status line, integer, array), as the reply to a single-key
+	// request and as the reply to ONE fragment of a split MGET / DEL / MSET (whose other fragment is answered normally):
+	// above the limit the client gets the too-large error, up to the limit the reply (or, for a fragment error, an error)
+	for _, shape := range []string{"bulk", "error", "status", "array"} {
+		for _, rl := range []int{L - 1, L, L + 1, 3 * L} {
+			var rep []byte
+			switch shape {
+			case "bulk":
+				rep = world.Bulk(strings.Repeat("r", rl-len("$00\r\n\r\n")))
+				if rl >= 100 {
+					rep = world.Bulk(strings.Repeat("r", rl-len("$000\r\n\r\n")))
+				}
+			case "error":
+				rep = []byte("-ERR " + strings.Repeat("e", rl-7) + "\r\n")
+			case "status":
+				rep = []byte("+" + strings.Repeat("s", rl-3) + "\r\n")
+			case "array":
+				rep = append([]byte("*1\r\n"), world.Bulk(strings.Repeat("a", rl-len("*1\r\n$00\r\n\r\n")))...)
+				if rl >= 100 {
+					rep = append([]byte("*1\r\n"), world.Bulk(strings.Repeat("a", rl-len("*1\r\n$000\r\n\r\n")))...)
+				}
+			}
+			over := len(rep) > L
+			for _, kind := range []string{"get", "mget", "del", "mset"} {
+				if kind != "get" && shape != "error" && !(kind == "mget" && shape == "array") {
+					continue // a fragment of DEL / MSET is answered with an integer / status; only errors come in every length
+				}
+				var r Req
+				ka, kb := keysA[0], keysB[0]
+				switch kind {
+				case "get":
+					r = GetReq(ka)
+				case "mget":
+					r = MGetReq(ka, kb)
+				case "del":
+					r = DelReq(ka, kb)
+				case "mset":
+					r = MSetReq(ka, "1", kb, "2")
+				}
+				r.Expect = rep
+				anyErr := false
+				if over {
+					r.Expect = []byte(world.RErrRspLarge)
+				} else if kind != "get" {
+					if shape == "error" {
+						anyErr = true // a fragment error fails the request with an error
+					} else {
+						// mget fragment array within the limit: merged with the other fragment's element
+						r.Expect = append([]byte("*2\r\n"), append(rep[len("*1\r\n"):], world.ValueOf([]byte(kb))...)...)
+						if len(r.Expect) > L {
+							r.Expect = []byte(world.RErrRspLarge)
+						}
+					}
+				}
+				follow := GetReq(keysC[1])
+				cs := ClientOf([]Req{r, follow}, false)
+				cs.Chunks[1].WaitReplies = 1
+				sc := &world.Scenario{Nodes: T3m(), Bound: 1, Family: "reply-shapes-at-limit", Horizon: 300, MaxLen: L, ReadCap: 4 * L, WriteCap: 4 * L,
+					Name: fmt.Sprintf("C17/reply-shape/%s/%s/reply%d", kind, shape, len(rep))}
+				sc.Clients = []world.ClientSpec{cs}
+				sc.Reply = func(w *world.World, bc *world.BConn, args [][]byte) ([]byte, int) {
+					if hasKey(args, ka) && bc.Addr == AddrA {
+						return rep, 0
+					}
+					return nil, 0
+				}
+				ae := anyErr
+				nrep := len(rep)
+				sc.Check = func(w *world.World) []world.Violation {
+					vs := CheckStreams(w, StreamOpts{AnyError: func(ci, j int) bool { return ae && j == 0 }})
+					if ae && len(vs) == 0 {
+						// within the limit: any error, but not one LONGER than the limit
+						rs, _, _ := world.SplitReplies(w.Clients[0].Received)
+						if len(rs) > 0 && len(rs[0]) > L {
+							vs = append(vs, world.Violation{Sig: "oversize-reply-passed-or-limit-off-by-one", Msg: fmt.Sprintf("a reply of %d bytes (limit %d) was delivered", len(rs[0]), L)})
+						}
+					}
+					for i := range vs {
+						vs[i].Sig = "oversize-reply-passed-or-limit-off-by-one"
+						vs[i].Msg = fmt.Sprintf("backend reply of %d bytes (limit %d): ", nrep, L) + vs[i].Msg
+					}
+					return vs
+				}
+				out = append(out, sc)
+			}
+		}
+	}
 	out = append(out, c17BehindPending(tier)...)
 	return out
 }
